@@ -66,6 +66,13 @@ def scalar_space_pairs(mesh_t, mesh_d, quick):
     out = [({"kind": "DP0"}, {"kind": "DP0"}), ({"kind": "P1", "inc": True}, {"kind": "DP1"}), ({"kind": "DP1"}, {"kind": "P1", "inc": True})]
     if len(dt) > 1:
         out.append(({"kind": "P1", "sel": ("segments", (dt[-1],)), "inc": True}, {"kind": "DP0"}))
+    # trial spaces whose element list is not the identity numbering and whose normal multipliers are not constant: flipped normals on a proper
+    # subset of the domains (multi-colour P1, whole grid) and a segment space with the complementary flip
+    dd = sorted(set(mesh_d[2].tolist()))
+    if len(dd) > 1:
+        out.append(({"kind": "DP0"}, {"kind": "P1", "inc": True, "swapped": (dd[-1],)}))
+        out.append(({"kind": "DP0"}, {"kind": "DP1", "sel": ("segments", (dd[-1],)), "swapped": (dd[-1],)}))
+        out.append(({"kind": "DP0", "swapped": (dt[0],)}, {"kind": "P1", "sel": ("segments", (dd[0],)), "inc": True, "swapped": (dd[0],)}))
     return out
 
 
@@ -101,7 +108,12 @@ def run_pair(ctx, tname, dname, shift, quick):
         # Maxwell
         closed_t = R.is_closed_manifold(mt[1])
         # on an open test grid only test functions without boundary flux allow the integration by parts behind the E identity
-        for tspec, dspec in [({"kind": "SNC", "inc": closed_t}, {"kind": "RWG", "inc": True})]:
+        dd = sorted(set(md[2].tolist()))
+        dt = sorted(set(mt[2].tolist()))
+        mx = [({"kind": "SNC", "inc": closed_t}, {"kind": "RWG", "inc": True})]
+        if len(dd) > 1 and r == 4:
+            mx.append(({"kind": "SNC", "inc": closed_t, "swapped": (dt[-1],)}, {"kind": "RWG", "inc": True, "swapped": (dd[-1],)}))
+        for tspec, dspec in mx:
             try:
                 tsp = SP.make_space(gt, tspec)
                 dsp = SP.make_space(gd, dspec)
@@ -111,7 +123,7 @@ def run_pair(ctx, tname, dname, shift, quick):
                 continue
             rows = test_cloud(mt, tsp, r)
             for k in (1.2, 0.8 + 0.3j):
-                case = {"sub": "maxwell", "pair": [tname, dname, list(shift)], "k": k, "order": r}
+                case = {"sub": "maxwell", "pair": [tname, dname, list(shift)], "k": k, "order": r, "test": SP.spec_json(tspec), "trial": SP.spec_json(dspec)}
                 try:
                     H = ops.dense(ops.boundary("maxwell", "magnetic_field", dsp, dsp, tsp, k=k, par=par))
                     MH = tested_potential(rows, lib_potential_matrix("maxwell", "magnetic_field", dsp, k, par), 3, cross_normal=True)
@@ -120,10 +132,15 @@ def run_pair(ctx, tname, dname, shift, quick):
                 except Exception as exc:  # noqa: BLE001
                     ctx.violation("two-grid/maxwell/exception:" + type(exc).__name__, case, repr(exc))
                     continue
-                ctx.case((pair, "maxwell", repr(k), r), sub="maxwell")
+                ctx.case((pair, "maxwell", repr(k), r, SP.spec_key(tspec), SP.spec_key(dspec)), sub="maxwell")
                 ctx.check_close("two-grid/maxwell/magnetic_field", case, H, MH, TOL, "H-vs-tested-potential")
                 err = float(np.max(np.abs(E - ME)) / np.max(np.abs(E)))
-                ctx.cov.setdefault("efield_errors", {}).setdefault((pair, repr(k)), []).append((r, err))
+                if not tspec.get("swapped"):
+                    ctx.cov.setdefault("efield_errors", {}).setdefault((pair, repr(k)), []).append((r, err))
+                else:
+                    ctx.observe("E-vs-tested-potential(swapped, order 4)", err, 0.2)
+                    if err > 0.2:
+                        ctx.violation("two-grid/maxwell/electric_field", case, "tested electric potential differs from the boundary matrix by %.2e at order 4" % err)
 
 
 def run(ctx):
